@@ -1620,6 +1620,9 @@ func c13Linked(p *core.Program, r *core.Report, t *types.Named, rule string) {
 			return found
 		}
 		for _, pa := range ps {
+			if !linkedConsistent(pa) {
+				continue // a test repeated with the other outcome while nothing it reads was written
+			}
 			var setFirst, setLast string
 			for _, e := range pa {
 				if e.Kind == "SET" {
@@ -1660,7 +1663,10 @@ func c13Linked(p *core.Program, r *core.Report, t *types.Named, rule string) {
 			case (setFirst == "nil") != (setLast == "nil") && !headRemoved && !tailRemoved:
 				probs = append(probs, "one end of the list is reset to nil while the other keeps pointing at a dropped node: later insertions are linked behind the dead node and can never be reached from the head")
 			case cleared:
-				if !pa.HasArg("SIZE", "=0") {
+				// Clear(): size = 0. Removal of the only node: the path knows the node has neither
+				// neighbour and counts it off once
+				onlyNode := pa.CountArg("SIZE", "--") == 1 && linkedKnows(pa, ".prev==nil", true) && linkedKnows(pa, ".next==nil", true)
+				if !pa.HasArg("SIZE", "=0") && !onlyNode {
 					probs = append(probs, "first/last cleared without size = 0")
 				}
 			case inserted:
@@ -1670,6 +1676,18 @@ func c13Linked(p *core.Program, r *core.Report, t *types.Named, rule string) {
 				// a node without a predecessor becomes the first, one without a successor the last; a
 				// neighbour that exists is pointed at the node
 				nb := fresh[nodeName]
+				// neighbours given to the node after it was built (n := &Entity{Value: v}; n.next = first)
+				for _, e := range pa {
+					if e.Kind != "LINKSET" {
+						continue
+					}
+					if strings.HasPrefix(e.Arg, nodeName+".prev=") {
+						nb[0] = strings.TrimPrefix(e.Arg, nodeName+".prev=")
+					}
+					if strings.HasPrefix(e.Arg, nodeName+".next=") {
+						nb[1] = strings.TrimPrefix(e.Arg, nodeName+".next=")
+					}
+				}
 				for side, want := range [2]string{setFirst, setLast} {
 					endName := [2]string{"first", "last"}[side]
 					link := [2]string{".next=", ".prev="}[side]
@@ -1994,4 +2012,45 @@ func c13ColumnsPerm(p *core.Program, fi *core.FuncInfo, bodies []*core.FuncInfo)
 		return true
 	})
 	return returnsCol
+}
+
+// linkedKnows: the path tested an atom ending in suffix with that outcome.
+func linkedKnows(pa paths.Path, suffix string, val bool) bool {
+	for _, e := range pa {
+		if e.Kind == "COND" && strings.HasSuffix(e.Arg, suffix+"="+map[bool]string{true: "true", false: "false"}[val]) {
+			return true
+		}
+	}
+	return false
+}
+
+// linkedConsistent: no comparison is found true and false on the same path while none of the
+// locations it mentions was assigned in between.
+func linkedConsistent(pa paths.Path) bool {
+	seen := map[string]bool{}
+	for _, e := range pa {
+		switch e.Kind {
+		case "SET", "LINKSET":
+			lhs := e.Arg
+			if i := strings.Index(lhs, "="); i > 0 {
+				lhs = lhs[:i]
+			}
+			for k := range seen {
+				if strings.Contains(k, lhs) {
+					delete(seen, k)
+				}
+			}
+		case "COND":
+			i := strings.LastIndex(e.Arg, "=")
+			if i < 0 {
+				continue
+			}
+			atom, val := e.Arg[:i], e.Arg[i+1:] == "true"
+			if prev, ok := seen[atom]; ok && prev != val {
+				return false
+			}
+			seen[atom] = val
+		}
+	}
+	return true
 }
